@@ -3,6 +3,7 @@ package main
 // SMT term construction and solver racing.
 
 import (
+	"runtime"
 	"bytes"
 	"context"
 	"fmt"
@@ -387,7 +388,7 @@ var thoroughMode bool
 
 const agreeGrace = 3 * time.Second
 
-var solverSem = make(chan struct{}, 20) // concurrent solver processes
+var solverSem = make(chan struct{}, 4*runtime.NumCPU()) // safety cap on concurrent solver processes (see oblSem)
 
 type queryVariant struct {
 	tag      string // "" for the full query
